@@ -2692,23 +2692,37 @@ def rule_X4_flags(F, R):
     if not found: R.violation('rsbdd::main / X4 / printers / VACUITY', 'VACUITY', 'no call of the table / listing printers found in main')
 
 def rule_X4_header_call(F, R):
-    """C10: the table comes with its header: wherever main calls the table printer, the same block calls print_header before it"""
+    """C10: the table comes with its header: wherever main reaches the table printer, print_header was called before it on the same path
+    (in the same block or an enclosing one)"""
     binc = F.bin()
     main = binc.ithir.get('rsbdd::main') if binc else None
     if main is None or binc.ithir.get('rsbdd::print_header') is None:
         R.count('X4:header-call'); return
-    n = 0
-    for b in walk(main['body']):
-        if b['k'] != 'Block': continue
-        seq = stmts_in_order(b)
-        for i, st in enumerate(seq):
+    def calls(x, name): return x is not None and any(y['k'] == 'Call' and callee_name(y) == name for y in walk(x))
+    def visit(b, seen):
+        """statements of a block in order; `seen`: print_header was called earlier on this path"""
+        while b['k'] in ('Use', 'NeverToAny'): b = b['source']
+        if b['k'] != 'Block':
+            if calls(b, 'rsbdd::print_truth_table_recursive'): judge(b, seen)
+            return
+        for st in stmts_in_order(b):
             x = st.get('expr') if st['k'] == 'Expr' else st.get('init')
-            if x is None or not any(y['k'] == 'Call' and callee_name(y) == 'rsbdd::print_truth_table_recursive' for y in walk(x)): continue
-            if any(y['k'] == 'Block' and y is not x and any(z['k'] == 'Call' and callee_name(z) == 'rsbdd::print_truth_table_recursive' for z in walk(y)) for y in walk(x) if y is not x and y['k'] == 'Block'): continue     # an outer block: judged at the inner one
-            n += 1
-            before = any(any(y['k'] == 'Call' and callee_name(y) == 'rsbdd::print_header' for y in walk(s2.get('expr') if s2['k'] == 'Expr' else s2.get('init') or {'k': 'Tuple', 'fields': []})) for s2 in seq[:i])
-            R.count('X4:header-call'); R.obligation(before, 'X4 header call')
-            if not before: R.violation('rsbdd::main / X4 / header of the table', 'X4', 'the table printer is called without print_header before it in the same block', x.get('loc'))
+            if x is None: continue
+            if calls(x, 'rsbdd::print_truth_table_recursive'):
+                inner = [y for y in walk(x) if y['k'] == 'Block' and y is not x and calls(y, 'rsbdd::print_truth_table_recursive')]
+                y0 = x
+                while y0['k'] in ('Use', 'NeverToAny'): y0 = y0['source']
+                if y0['k'] == 'Block': visit(y0, seen)
+                elif y0['k'] == 'If':
+                    visit(y0['then'], seen)
+                    if y0.get('else') is not None: visit(y0['else'], seen)
+                elif inner: visit(inner[0], seen)
+                else: judge(x, seen)
+            if calls(x, 'rsbdd::print_header'): seen = True
+    def judge(x, seen):
+        R.count('X4:header-call'); R.obligation(seen, 'X4 header call')
+        if not seen: R.violation('rsbdd::main / X4 / header of the table', 'X4', 'the table printer is reached without print_header having been called before it', x.get('loc'))
+    visit(main['body'], False)
 
 def rule_X12_header(F, R):
     """C10: the header names the columns: print_header walks its labels and writes each one to standard output (a header whose loop no
